@@ -138,3 +138,122 @@ def unfitted_edge_inputs(ctx):
                                    'repro': (f"import numpy as np\nfrom copulas import univariate as U\nfrom copulas.errors import NotFittedError\n"
                                              f"try:\n    U.{cls.__name__}().{meth}(np.array({x.tolist()!r}))\n    raise SystemExit(1)\nexcept NotFittedError:\n    pass\n")})
     ctx.obligation('oracle:unfitted-edge-inputs', True, 'correspondence')
+
+
+def constant_roundtrip(ctx):
+    """C14: models fitted on CONSTANT data whose value is not exactly representable (0.1 x 100, 2.7 x 50, ...: the mean of n copies
+    is not the value, np.std is ~1e-17) must survive to_dict/from_dict and JSON as the same point mass — added after seed C14_a."""
+    import json
+    from copulas import univariate as U
+    probes = np.array([-1.0, 0.05, 0.1, 0.3, 2.7, 5.0])
+    qs = np.array([0.1, 0.5, 0.9])
+    for cls in (U.GaussianUnivariate, U.UniformUnivariate, U.GammaUnivariate, U.BetaUnivariate, U.StudentTUnivariate,
+                U.TruncatedGaussian, U.GaussianKDE, U.LogLaplace):
+        for c, n in ((0.1, 100), (2.7, 50), (0.1, 3), (1.0 / 3.0, 7)):
+            m = cls()
+            try:
+                m.fit(np.full(n, c))
+                d = m.to_dict()
+                copies = {'dict': U.Univariate.from_dict(d), 'json': U.Univariate.from_dict(json.loads(json.dumps(d)))}
+            except Exception as ex:
+                ctx.violation(f'rt-const:{cls.__name__}:raises:{type(ex).__name__}', f'{cls.__name__} fitted on {n} copies of {c!r}: round trip raised {type(ex).__name__}: {ex}',
+                              {'class': cls.__name__, 'constant': c, 'n': n, 'repro': f"import numpy as np\nfrom copulas import univariate as U\nm=U.{cls.__name__}(); m.fit(np.full({n},{c!r})); U.Univariate.from_dict(m.to_dict())\n"})
+                continue
+            ctx.case(('rt-const', cls.__name__, c, n), None)
+            for path, k in copies.items():
+                bad = []
+                for meth, x in (('cumulative_distribution', probes), ('probability_density', probes), ('percent_point', qs)):
+                    with np.errstate(all='ignore'):
+                        a, b = np.asarray(getattr(m, meth)(x), dtype=float), np.asarray(getattr(k, meth)(x), dtype=float)
+                    if not np.array_equal(a, b, equal_nan=True):
+                        bad.append(f'{meth}: {a.tolist()} vs {b.tolist()}')
+                if bad:
+                    key = 'F25:studentt-constant-roundtrip:nonrepresentable' if cls is U.StudentTUnivariate else f'rt-const:{cls.__name__}:{path}'
+                    ctx.violation(key, f'{cls.__name__} fitted on {n} copies of {c!r}: the {path} round trip changes the behaviour: ' + '; '.join(bad)[:300],
+                                  {'class': cls.__name__, 'constant': c, 'n': n, 'path': path,
+                                   'repro': (f"import numpy as np, json\nfrom copulas import univariate as U\nm=U.{cls.__name__}(); m.fit(np.full({n},{c!r}))\n"
+                                             f"k=U.Univariate.from_dict(json.loads(json.dumps(m.to_dict())))\nx=np.array({probes.tolist()!r})\n"
+                                             "a=m.probability_density(x); b=k.probability_density(x)\nprint(a,b)\nassert np.array_equal(a,b,equal_nan=True)\n")})
+    ctx.obligation('oracle:constant-roundtrip', True, 'correspondence')
+
+
+def univariate_refit_queries(ctx):
+    """C03: fit(d1); QUERY; fit(d2) must answer like a fresh model fitted on d2 (a value cached by a query must not survive a re-fit)
+    — added after seed C03_a (KDE lower bound cached on the first CDF evaluation)."""
+    from copulas import univariate as U
+    rs = np.random.RandomState(ctx.seed + 303)
+    d1 = rs.normal(10.0, 1.0, 60)
+    d2 = rs.normal(0.0, 3.0, 60)
+    for cls, kw in ((U.GaussianUnivariate, {}), (U.UniformUnivariate, {}), (U.StudentTUnivariate, {}), (U.TruncatedGaussian, {}),
+                    (U.GaussianKDE, {}), (U.GaussianKDE, {'bw_method': 'silverman'}), (U.GammaUnivariate, {}), (U.BetaUnivariate, {}), (U.LogLaplace, {})):
+        a1, a2 = (np.abs(d1) + 0.1, np.abs(d2) + 0.1) if cls in (U.GammaUnivariate, U.LogLaplace) else (d1, d2)
+        name = cls.__name__ + (str(kw) if kw else '')
+        try:
+            m = cls(**kw)
+            m.fit(a1)
+            xs1 = np.linspace(a1.min(), a1.max(), 5)
+            with np.errstate(all='ignore'):
+                m.cumulative_distribution(xs1); m.probability_density(xs1); m.percent_point(np.array([0.2, 0.8]))
+            m.fit(a2)
+            xs = np.linspace(a2.min() - 1, a2.max() + 1, 9)
+            bad = []
+            if cls is U.GaussianKDE:
+                # a re-fitted KDE resamples its dataset (known finding F7, property C19), so it cannot be compared with a fresh fit:
+                # compare it with the kernel estimate of ITS OWN stored dataset instead (catches values cached by the earlier queries)
+                from scipy.stats import gaussian_kde
+                ds = np.asarray(m._params['dataset'], dtype=float).ravel()
+                ref = gaussian_kde(ds, bw_method=kw.get('bw_method'))
+                with np.errstate(all='ignore'):
+                    a = np.asarray(m.cumulative_distribution(xs), dtype=float)
+                    b = np.array([ref.integrate_box_1d(-np.inf, t) for t in xs])
+                    pa, pb = np.asarray(m.probability_density(xs), dtype=float), ref.evaluate(xs)
+                    q = np.asarray(m.percent_point(np.array([0.05, 0.5, 0.95])), dtype=float)
+                    cq = np.array([ref.integrate_box_1d(-np.inf, t) for t in q])
+                if not np.allclose(a, b, atol=1e-6):
+                    bad.append(f'cumulative_distribution: {a.tolist()[:4]} vs kernel estimate of its own dataset {b.tolist()[:4]}')
+                if not np.allclose(pa, pb, rtol=1e-9, atol=1e-12):
+                    bad.append(f'probability_density: {pa.tolist()[:4]} vs {pb.tolist()[:4]}')
+                if not np.allclose(cq, [0.05, 0.5, 0.95], atol=1e-5):
+                    bad.append(f'cdf(percent_point([.05,.5,.95])) = {cq.tolist()}')
+            else:
+                f = cls(**kw)
+                f.fit(a2)
+                for meth, x in (('cumulative_distribution', xs), ('probability_density', xs), ('percent_point', np.array([0.05, 0.5, 0.95]))):
+                    with np.errstate(all='ignore'):
+                        a, b = np.asarray(getattr(m, meth)(x), dtype=float), np.asarray(getattr(f, meth)(x), dtype=float)
+                    if not np.allclose(a, b, rtol=1e-9, atol=1e-12, equal_nan=True):
+                        bad.append(f'{meth}: {a.tolist()[:4]} vs fresh {b.tolist()[:4]}')
+        except Exception as ex:
+            bad = [f'raised {type(ex).__name__}: {ex}']
+        ctx.case(('refit-queries', name), None)
+        if bad:
+            ctx.violation(f'search:refit-after-queries:{name}', f'{name}: fit(d1); cdf/pdf/ppf; fit(d2) differs from a fresh model fitted on d2: ' + '; '.join(bad)[:400],
+                          {'class': name, 'repro': (f"import numpy as np\nfrom copulas import univariate as U\nrs=np.random.RandomState({ctx.seed + 303}); d1=rs.normal(10,1,60); d2=rs.normal(0,3,60)\n"
+                                                    + ("d1,d2=np.abs(d1)+.1,np.abs(d2)+.1\n" if cls in (U.GammaUnivariate, U.LogLaplace) else "")
+                                                    + f"m=U.{cls.__name__}(**{kw!r}); m.fit(d1); m.cumulative_distribution(np.linspace(d1.min(),d1.max(),5)); m.fit(d2)\nf=U.{cls.__name__}(**{kw!r}); f.fit(d2)\n"
+                                                    "x=np.linspace(d2.min()-1,d2.max()+1,9)\na=m.cumulative_distribution(x); b=f.cumulative_distribution(x)\nprint(a,b)\nassert np.allclose(a,b,rtol=1e-9,atol=1e-12)\n")})
+    ctx.obligation('oracle:refit-after-queries', True, 'correspondence')
+
+
+def truncated_zero_bound(ctx):
+    """C04: a user-supplied truncation bound that is exactly 0 (falsy) must be honoured — added after seed C04_a (`self.min or ...`)."""
+    from copulas.univariate import TruncatedGaussian
+    from scipy.stats import truncnorm
+    rs = np.random.RandomState(ctx.seed + 404)
+    for lo, hi, loc in ((0.0, 10.0, 5.0), (-10.0, 0.0, -5.0), (0.0, 1.0, 0.6)):
+        sc = (hi - lo) / 10.0
+        x = truncnorm((lo - loc) / sc, (hi - loc) / sc, loc, sc).rvs(400, random_state=rs)
+        m = TruncatedGaussian(minimum=lo, maximum=hi)
+        m.fit(x)
+        p = m._params
+        sup = (p['loc'] + p['a'] * p['scale'], p['loc'] + p['b'] * p['scale'])
+        ok = abs(sup[0] - lo) <= 1e-9 * (1 + abs(lo)) and abs(sup[1] - hi) <= 1e-9 * (1 + abs(hi))
+        ctx.case(('tg-zero-bound', lo, hi), {'bounds': [lo, hi], 'fitted_support': list(map(float, sup))})
+        ctx.obligation(f'oracle:truncated-zero-bound:{lo}:{hi}', ok, 'correspondence', f'support {sup}')
+        if not ok:
+            ctx.violation('search:user-bounds-not-honoured:truncated:zero-bound', f'TruncatedGaussian(minimum={lo}, maximum={hi}) fitted support is {sup}',
+                          {'bounds': [lo, hi], 'support': list(map(float, sup)),
+                           'repro': (f"import numpy as np\nfrom scipy.stats import truncnorm\nfrom copulas.univariate import TruncatedGaussian\n"
+                                     f"x=truncnorm({(lo - loc) / sc!r},{(hi - loc) / sc!r},{loc!r},{sc!r}).rvs(400, random_state=np.random.RandomState(1))\n"
+                                     f"m=TruncatedGaussian(minimum={lo!r}, maximum={hi!r}); m.fit(x); p=m._params\ns=(p['loc']+p['a']*p['scale'], p['loc']+p['b']*p['scale'])\nprint(s)\n"
+                                     f"assert abs(s[0]-{lo!r})<1e-6 and abs(s[1]-{hi!r})<1e-6\n")})
